@@ -72,6 +72,11 @@ CACHE_RULE = ("Scenario: 1..4 targets, one stream task per target playing 4..60 
               "result class, change-feed entries per operation, stored content and timestamps after every operation, feed replay == "
               "content, input immutability, retroactive mutation of delivered notifications, reset/remove clauses, counters. "
               "Deletes inside multi notifications aim at existing leaves (this leaf, its parent, a sibling below the prefix, *). "
+              "Histories also contain partial re-sends (1-3 leaves written before, mostly with unchanged values, in one notification), "
+              "Reset in every clock mode followed by low then high timestamps, and - with a small future threshold - bursts whose "
+              "timestamps creep ahead of the clock in threshold-sized steps. At the end of every run a consumer of the feed must hold "
+              "each metadata leaf with the value the cache stores (leaves deleted during the run excepted). A Remove is also raced "
+              "against a second goroutine that re-adds the target the moment it is gone (stall fault at the clock seam inside Remove). "
               "Second phase in 30% of the C03/C14 runs: one Reset task per target raced against an admin task that removes and re-adds "
               "the same targets; at quiescence feed replay == cache content (data leaves equal, no metadata leaf reported that the cache "
               "does not store). C03 also runs the subscribe harness (real Subscribe server as the feed consumer, slow STREAM subscribers): "
